@@ -53,6 +53,21 @@ pub const STRUCT_REPRS: &[Reprs] = &[
     &[&["packed3"]],
     &[&["align3"]],
     &[&["C", "u8"]],
+    // spellings rustc accepts but the macro's parser does not (`Rust` keyword, duplicated `C`)
+    &[&["Rust"]],
+    &[&["Rust", "align2"]],
+    &[&["Rust", "align1"]],
+    &[&["Rust", "packed"]],
+    &[&["Rust", "packed2"]],
+    &[&["Rust"], &["align2"]],
+    &[&["align2"], &["Rust"]],
+    &[&["align1"], &["Rust", "align2"]],
+    &[&["C"], &["Rust", "align2"]],
+    &[&["packed"], &["Rust"]],
+    &[&["Rust", "C"]],
+    &[&["C", "C", "align2"]],
+    &[&["C", "C", "packed"]],
+    &[&["C"], &["C", "C", "align4"]],
 ];
 
 pub const ENUM_REPRS: &[Reprs] = &[
@@ -74,6 +89,12 @@ pub const ENUM_REPRS: &[Reprs] = &[
     &[&["u8"], &["align1"]],
     &[&["u8", "align1"], &["align2"]],
     &[&["align2"], &["u8", "align1"]],
+    &[&["Rust"]],
+    &[&["Rust", "u8"]],
+    &[&["u8"], &["Rust"]],
+    &[&["u8"], &["Rust", "align2"]],
+    &[&["u8"], &["Rust", "align1"]],
+    &[&["Rust", "align2"], &["u8"]],
 ];
 
 const GENERIC_REPRS: &[Reprs] = &[
@@ -89,10 +110,12 @@ const GENERIC_REPRS: &[Reprs] = &[
     &[&["C", "packed2"]],
     &[&["u8"]],
     &[&["packed"], &["align2"]],
+    &[&["Rust", "align2"]],
+    &[&["C"], &["Rust", "align2"]],
 ];
 
 const ZC_REPRS: &[Reprs] =
-    &[&[], &[&["C"]], &[&["packed"]], &[&["C", "packed"]], &[&["align2"]], &[&["packed2"]], &[&["transparent"]], &[&["u8"]]];
+    &[&[], &[&["C"]], &[&["packed"]], &[&["C", "packed"]], &[&["align2"]], &[&["packed2"]], &[&["transparent"]], &[&["u8"]], &[&["Rust"]], &[&["Rust", "align2"]]];
 
 const L3: &[&[&str]] = &[
     &["u8", "u16", "u8"],
@@ -258,7 +281,7 @@ pub fn grid() -> Vec<(&'static str, Vec<Decl>)> {
             s.push(mk(Mac::Unsized, Kind::Struct, false, &[], f.clone(), vec![], v(t)));
         }
     }
-    for r in [&[&["C"][..]][..], &[&["packed"][..]][..], &[&["align2"][..]][..], &[&["C", "packed"][..]][..]] {
+    for r in [&[&["C"][..]][..], &[&["packed"][..]][..], &[&["align2"][..]][..], &[&["C", "packed"][..]][..], &[&["Rust", "align2"][..]][..], &[&["Rust"][..]][..]] {
         for f in [&["u8"][..], &["u8", "bool"][..], &[][..]] {
             for t in [&["list"][..], &["rem"][..]] {
                 s.push(mk(Mac::Unsized, Kind::Struct, false, r, v(f), vec![], v(t)));
@@ -310,10 +333,10 @@ pub fn grid() -> Vec<(&'static str, Vec<Decl>)> {
 /// Quick-tier sample sizes per stratum.
 pub fn quick_quota(stratum: &str) -> usize {
     match stratum {
-        "align1/struct" => 1500,
+        "align1/struct" => 1800,
         "align1/generic" => 400,
         "align1/enum" => 300,
-        "zc/struct" => 600,
+        "zc/struct" => 650,
         "zc/other" => 200,
         "unsized" => 330,
         _ => 0,
@@ -373,9 +396,9 @@ pub fn documented() -> Vec<(Decl, bool)> {
 
 fn random_attrs(rng: &mut Rng, kind: Kind) -> Vec<Vec<String>> {
     let pool: Vec<&str> = if kind == Kind::Enum {
-        vec!["u8", "u8", "u8", "C", "i8", "u16", "align1", "align2", "packed", "transparent", "u32", "isize"]
+        vec!["u8", "u8", "u8", "C", "i8", "u16", "align1", "align2", "packed", "transparent", "u32", "isize", "Rust", "u128", "usize"]
     } else {
-        vec!["C", "C", "packed", "packed", "packed1", "packed2", "packed4", "align1", "align2", "align4", "align8", "transparent", "u8", "packed8", "align16"]
+        vec!["C", "C", "packed", "packed", "packed1", "packed2", "packed4", "align1", "align2", "align4", "align8", "transparent", "u8", "packed8", "align16", "Rust", "Rust"]
     };
     let nattr = [0, 1, 1, 1, 2, 2, 3][rng.below(7) as usize];
     (0..nattr)
